@@ -253,13 +253,10 @@ func (o *Obligation) queryOpts(models bool, extra []string, dropQuant bool) stri
 		b.WriteString("(set-option :produce-models true)\n")
 	}
 	ax := fc.w.axiomTexts()
-	fc.w.Reg.SortOf(fc.w.jsonType())
-	fc.w.Reg.SortOf(types.NewSlice(types.Typ[types.Uint8]))
 	b.WriteString("(set-logic ALL)\n")
 	b.WriteString(fc.w.Reg.Prelude())
 	jsonOn := true
 	if jsonOn {
-		fc.w.Reg.SortOf(types.NewSlice(types.Typ[types.Uint8]))
 		b.WriteString(jsonPrelude())
 		b.WriteString("(declare-fun js_bytesval (Sl_Int) Str)\n")
 	}
